@@ -379,6 +379,7 @@ type respCase struct {
 	tag                      string
 	seed                     uint64
 	newResp                  func() proto.Message
+	msgIDs                   L
 	serverCodec, clientCodec string
 }
 
@@ -432,6 +433,7 @@ func genResp(r *rng, limits []uint32) *respCase {
 		nmsgs = r.intn(4)
 	}
 	tables := newTables()
+	msgIDs := L{}
 	lim := int64(limit)
 	if lim == 0 {
 		lim = 4294967295
@@ -447,6 +449,7 @@ func genResp(r *rng, limits []uint32) *respCase {
 		plain, _ := vgCodec(serverCodec).MarshalAppend(nil, msg)
 		b.Msgs = append(b.Msgs, plain)
 		b.Flags = append(b.Flags, r.chance(2, 3))
+		msgIDs = append(msgIDs, L{true, Bb(canon(msg))})
 		p := plain
 		if b.Comp == "gzip" && (b.Flags[m] || (target == vanguard.ProtocolConnect && !streaming)) {
 			p = gzipBytes(plain)
@@ -468,6 +471,7 @@ func genResp(r *rng, limits []uint32) *respCase {
 		if r.chance(1, 2) {
 			b.TrailersOnly = true
 			b.Msgs, b.Flags = nil, nil
+			msgIDs = L{}
 			tag = "error-trailers-only"
 		}
 	case 3:
@@ -494,7 +498,7 @@ func genResp(r *rng, limits []uint32) *respCase {
 		tag += "+cut"
 	}
 	return &respCase{cfg: cfg, form: form, target: target, streaming: streaming, req: req, in2: in2, b: b, tables: tables, lim: lim, tag: tag, seed: r.next(),
-		newResp: newResp, serverCodec: serverCodec, clientCodec: clientCodec}
+		newResp: newResp, serverCodec: serverCodec, clientCodec: clientCodec, msgIDs: msgIDs}
 }
 
 // run executes the scenario with the given write segmentation (-1: as generated)
@@ -614,7 +618,7 @@ func (rc *respCase) run(split int) (in L, out L, view clientView, res scenarioRe
 		trailers = nil
 	}
 	intent := L{int64(form), wellformed, kind, b.ErrCode, B(b.ErrMsg), b.errValue()[2], hdrOf(trailers), hdrOf(b.Headers),
-		target == vanguard.ProtocolConnect && !streaming, int64(b.BareStatus), b.TrailersOnly, lenient}
+		target == vanguard.ProtocolConnect && !streaming, int64(b.BareStatus), b.TrailersOnly, lenient, rc.msgIDs}
 	in = L{tconfV(rc.cfg), rc.in2, scriptV(script), rc.tables.value(), et.value(), endLen, intent}
 	return in, out, view, res, true
 }
